@@ -6,7 +6,7 @@ from props import endpoint
 def check(pid, tier, replay):
     names = ["da", "db", "dh", "h0", "lb", "lp", "m"] if tier == "thorough" else ["a", "b", "h", "h0", "lb", "lp", "m"]
     gens = [("endpoint/CreditGen", "endpoint/CreditGen_%s.cfg" % n) for n in names]
-    models = [("endpoint/Credit", "endpoint/Credit.cfg"), ("endpoint/CreditWake", "endpoint/CreditWake.cfg")]
+    models = [("endpoint/Credit", "endpoint/Credit.cfg"), ("endpoint/CreditWake", "endpoint/CreditWake.cfg"), ("ind/FlowInd", "apalache")]
     if not replay:
         # the dangerous order must be refuted by TLC, otherwise the race model says nothing
         out = vlib.tlc("endpoint/CreditWake", cfg="endpoint/CreditWake_lost.cfg", wd=vlib.workdir("ep-C08-neg"), workers=2, timeout=600)
